@@ -34,6 +34,7 @@ CLS = 'CategoricalClassification'
 def run(repo, chk, tier):
     matrix(repo, chk)
     feature(repo, chk)
+    configure(repo, chk)
     naive(repo, chk)
 
 
@@ -602,6 +603,87 @@ def _threshold_table(fn, m, S, T, tdef):
         v = wrong[0]
         return ('bad', f'a needle value of {v} gets the label {cur[v]} instead of {0 if v < 40 else 1}' + (f' ({len(wrong)} of the 90 possible values are labelled differently)' if len(wrong) > 1 else ''), None)
     return ('ok',)
+
+
+def configure(repo, chk):
+    """C19.8 - the structure entry reaches the feature generator in its roles.  _configure_generate_feature is evaluated path by path; on each path
+    what is returned must be one call of _generate_feature whose parameters (positional arguments resolved to their names) receive: the sample
+    count as size; for a plain cardinality: cardinality and the data-set wide options; for [values, frequencies]: vec and p; for a value list:
+    vec and k; and ensure_rep on every path.  In addition (whole class): an argument that is a plain name equal to a parameter name of the callee
+    must be bound to that parameter."""
+    from ..match import run_paths, bind_args
+    fn = repo.func(CC, f'{CLS}._configure_generate_feature')
+    gen = repo.func(CC, f'{CLS}._generate_feature')
+    m = fn.module
+    ps = [q for q in fn.params if q != 'self']
+    fa, ns = ps[0], ps[1]
+    E = lambda s_: expected_term(m, s_)
+    cn = Canon(m, Scope(None))
+    a_list = E(f'isinstance({fa}, (list, numpy.ndarray))')
+    b_list = E(f'isinstance({fa}[0], (list, numpy.ndarray))')
+    paths = run_paths(fn, None, None, max_forks=4)
+    if paths is None:
+        chk.unsure('C19.8', 'R6', fn.site(), '_configure_generate_feature', 'too many tests to fork on')
+        paths = []
+    n_ok = 0
+    for assume, res in paths:
+        desc = ', '.join(f'{ast.unparse(t)[:50]} is {v}' for t, v in res.assumed) or 'single path'
+        if res.unknown is not None or res.returned is None:
+            chk.unsure('C19.8', 'R6', fn.site(res.unknown) if res.unknown is not None else fn.site(), desc, 'a path of _configure_generate_feature could not be evaluated')
+            continue
+        val = {}
+        for t, v in res.assumed:
+            tt = term_of(fn, t, inline=False)
+            for k_, atom in (('A', a_list), ('B', b_list)):
+                if tt == atom:
+                    val[k_] = v
+                elif cn._not(tt) == atom:
+                    val[k_] = not v
+        call = res.returned
+        site = fn.site(call) if hasattr(call, 'lineno') else fn.site()
+        if not (isinstance(call, ast.Call) and isinstance(call.func, ast.Attribute) and call.func.attr == '_generate_feature'):
+            chk.unsure('C19.8', 'R6', site, f'{desc}: {ast.unparse(call)[:80]}', 'the value returned is not one call of _generate_feature')
+            continue
+        ba = {k_: term_of(fn, v, inline=False) for k_, v in bind_args(call, gen, skip_self=True).items()}
+        gp = [q for q in gen.params if q != 'self']
+        same = lambda name: E(name)
+        if val.get('A') is False:
+            need = {gp[0]: E(ns), 'cardinality': E(fa), 'ensure_rep': same('ensure_rep'), 'random_values': same('random_values'), 'low': same('low'), 'high': same('high'), 'k': same('k')}
+            kind = 'a plain cardinality'
+        elif val.get('A') is True and val.get('B') is True:
+            need = {gp[0]: E(ns), 'vec': E(f'{fa}[0]'), 'ensure_rep': same('ensure_rep'), 'p': E(f'{fa}[1]')}
+            kind = '[values, frequencies]'
+        elif val.get('A') is True and val.get('B') is False:
+            need = {gp[0]: E(ns), 'vec': E(fa), 'ensure_rep': same('ensure_rep'), 'k': same('k')}
+            kind = 'a value list'
+        else:
+            chk.unsure('C19.8', 'R6', site, desc, 'the path does not say which kind of structure entry it serves')
+            continue
+        wrong = [(k_, ba.get(k_)) for k_, w in need.items() if ba.get(k_) != w]
+        if kind == 'a value list' and ba.get('p') not in (None, ('none',)):
+            wrong.append(('p', ba.get('p')))
+        if wrong:
+            k_, got = wrong[0]
+            chk.bad('C19.8', 'R6', site, f'{desc}: {ast.unparse(call)[:120]}', f'for {kind} the parameter `{k_}` of _generate_feature must receive {show(need.get(k_, ("none",)))[:40]}; it receives {show(got)[:60] if got is not None else "nothing (its default)"}')
+        else:
+            n_ok += 1
+    if n_ok:
+        chk.ok('C19.8', 'R6', fn.site(), f'{n_ok} path(s)', 'every kind of structure entry reaches _generate_feature in its roles (size, cardinality / vec, p, k, ensure_rep)', inspected=n_ok)
+    # whole class: an argument named like a parameter of the callee is bound to that parameter
+    cls_funcs = {q.split('.')[-1]: f for q, f in m.funcs.items() if q.startswith(CLS + '.') and q.count('.') == 1}
+    n_calls = 0
+    for f in cls_funcs.values():
+        for c in calls(f):
+            if isinstance(c.func, ast.Attribute) and isinstance(c.func.value, ast.Name) and c.func.value.id == 'self' and c.func.attr in cls_funcs:
+                callee = cls_funcs[c.func.attr]
+                cps = [q for q in callee.params if q != 'self']
+                n_calls += 1
+                for pname, a in bind_args(c, callee, skip_self=True).items():
+                    if isinstance(a, ast.Name) and a.id in cps and a.id != pname and pname in cps:
+                        chk.bad('C19.8b', 'R6', f.site(c), ast.unparse(c).replace('\n', ' ')[:120], f'the argument `{a.id}` is bound to the parameter `{pname}` of {callee.name} although {callee.name} has a parameter `{a.id}` of its own: the value reaches the wrong role (and `{a.id}` keeps its default)')
+    chk.analysed['generator_internal_calls'] = n_calls
+    if not any(o.oid == 'C19.8b' for o in chk.obs):
+        chk.ok('C19.8b', 'R6', m.relpath, f'{n_calls} calls between methods of {CLS}', 'no argument is bound to a parameter other than the one it is named after')
 
 
 def naive(repo, chk):
